@@ -46,7 +46,7 @@ def valid_case(rng, several=False):
     return case
 
 
-FAULTS = ["fuel-rfrac-out-of-range", "fuel-negative-porosity", "fuel-legacy-gap-too-thick", "power-duplicate-item", "spacergrid-cdd-coeff-count", "spacergrid-no-position-in-bundle", "zero-wire-pitch", "axial-regions-cover-core", "power-wrong-count-later-assembly", "power-short-later-assembly", "duct-zero-wall", "pins-do-not-fit", "wire-too-thick", "clad-too-thick", "zero-pin-pitch", "negative-pin-diameter", "zero-duct-ftf",
+FAULTS = ["pinmodel-rfrac-out-of-range", "fuel-rfrac-out-of-range", "fuel-negative-porosity", "fuel-legacy-gap-too-thick", "power-duplicate-item", "spacergrid-cdd-coeff-count", "spacergrid-no-position-in-bundle", "zero-wire-pitch", "axial-regions-cover-core", "power-wrong-count-later-assembly", "power-short-later-assembly", "duct-zero-wall", "pins-do-not-fit", "wire-too-thick", "clad-too-thick", "zero-pin-pitch", "negative-pin-diameter", "zero-duct-ftf",
           "duct-ge-pitch", "unequal-outer-ducts", "axial-regions-overlap", "axial-region-inverted", "missing-bc", "negative-flowrate",
           "unknown-material", "unknown-correlation", "negative-power", "power-gap-between-cells", "power-wrong-pin-count",
           "flow-gap-no-bypass", "zero-core-length", "odd-duct-values", "zero-step-request"]
@@ -209,6 +209,16 @@ def inject(rng, case, fault, lowfid=False, near=False, excess=0.01):
             fm['fcgap_thickness'] = t['pin_diameter'] * rng.choice([0.55, 1.0])
             fm['gap_material'] = 'sodium'
         t['FuelModel'] = fm
+    elif fault == "pinmodel-rfrac-out-of-range":
+        if t.get('use_low_fidelity_model'):
+            return None
+        t.pop('FuelModel', None)
+        pm = dict(gap_thickness=0.0, clad_material='ht9', r_frac=[0.0, 0.5], pin_material=['ss316', 'ht9'])
+        if rng.random() < 0.5:
+            pm['r_frac'][-1] = rng.choice([1.0, 1.3])
+        else:
+            pm['r_frac'][0] = -rng.choice([0.05, 0.3])
+        t['PinModel'] = pm
     elif fault == "power-duplicate-item":
         # in ONE axial cell one item is listed twice and another one not at all: the number of rows is still right
         rows = c['power']['rows']
